@@ -163,6 +163,9 @@ class E3Session(SessionBase):
         self.ref_cache = {}
         self.plans = 0
         self.last_cd = []
+        self.last_sim = []
+        self.sim_network = None
+        self.simulations = 0
         self.failed_plans = 0
         self.plan_kinds = []
 
@@ -746,11 +749,22 @@ class E3Session(SessionBase):
 
     def _check_csv(self, out, data):
         doc = results_to_json(out['result'])
+        before = deepcopy(doc)
         stream = io.StringIO()
         try:
             jsontocsv(doc, self.equipment, stream)
         except Exception as e:      # noqa
             raise Violation('C19', 'csv-export-fails', repr(e))
+        # the response that was exported still states the same, and exporting it again states the same rows
+        if doc != before:
+            raise Violation('C19', 'response-changed-by-its-csv-export', _first_diff(before, doc))
+        again = io.StringIO()
+        try:
+            jsontocsv(doc, self.equipment, again)
+        except Exception as e:      # noqa
+            raise Violation('C19', 'second-csv-export-fails', repr(e))
+        if again.getvalue() != stream.getvalue():
+            raise Violation('C19', 'second-csv-export-differs', '')
         rows = list(csv.DictReader(io.StringIO(stream.getvalue())))
         if [r['response-id'] for r in rows] != [str(x['response-id']) for x in doc['response']]:
             raise Violation('C19', 'csv-rows-differ-from-responses', f'{[r["response-id"] for r in rows]}')
@@ -900,11 +914,69 @@ class E3Session(SessionBase):
                          float(np.max(it['rx']['chromatic_dispersion'])))
                         for it in out['items'] if it['rx'] is not None and it['mode'] is not None
                         and not np.any(np.isnan(it['rx']['chromatic_dispersion']))]
+        self.last_sim = [(it['route'], it['rq']) for it in out['items']
+                         if it['route'] and it['rq'].baud_rate is not None and it['rq'].tsp_mode is not None]
         for it in out['items']:
             self.st.outcomes[it['blocking'] or 'served'] += 1
         return {'kind': f'{tag}:{n_items}:' + '+'.join(kinds),
                 'digest': jdigest([[it['rid'], it['route'], it['mode'], it['blocking'], it['N'], it['M']]
                                    for it in out['items']])}
+
+    def do_simulate(self, index, mode_index):
+        """what gnpy-transmission-example / worker_utils.transmission_simulation does: the real propagate() through
+        long-lived elements (a copy of the designed network kept for simulations only, so that planning is not
+        affected), along the route of a request of the last plan, with one of the modes of its transceiver.  Judged
+        (C13): the penalties the receiver holds afterwards are the interpolation of THIS mode's tables at the
+        receiver's own impairments, however many simulations the receiver has seen before."""
+        if self.discarded or not self.last_sim:
+            return {'kind': 'nothing'}
+        route, rq = self.last_sim[index % len(self.last_sim)]
+        tdoc = next((t for t in self.world['eqpt']['Transceiver']
+                     if rq.tsp in [t['type_variety']] + t.get('other_name', [])), None)
+        if tdoc is None:
+            return {'kind': 'nothing'}
+        if self.sim_network is None:
+            self.sim_network = deepcopy(self.network)
+        by_uid = {n.uid: n for n in self.sim_network.nodes()}
+        path = [by_uid[u] for u in route]
+        mdoc = tdoc['mode'][mode_index % len(tdoc['mode'])]
+        lib = next(m for m in self.equipment['Transceiver'][rq.tsp].mode if m['format'] == mdoc['format'])
+        rq = deepcopy(rq)
+        if hasattr(rq, 'blocking_reason'):
+            delattr(rq, 'blocking_reason')
+        rq.baud_rate, rq.OSNR, rq.tx_osnr, rq.bit_rate = lib['baud_rate'], lib['OSNR'], lib['tx_osnr'], lib['bit_rate']
+        rq.tsp_mode = rq.format = lib['format']
+        rq.penalties = lib.get('penalties') or {}
+        rq.offset_db = lib.get('equalization_offset_db', 0)
+        rq.roll_off = lib.get('roll_off') or self.equipment['SI']['default'].roll_off
+        if rq.baud_rate > rq.spacing:
+            return {'kind': 'mode-does-not-fit'}
+        self.st.faults['transmission_simulation_through_long_lived_elements'] += 1
+        try:
+            propagate(path, rq, self.equipment)
+        except PLAN_ERRORS as e:
+            return {'kind': f'simulated:{type(e).__name__}'}
+        rx = path[-1]
+        imp = {'chromatic_dispersion': np.array(rx.chromatic_dispersion, dtype=float),
+               'pmd': np.array(rx.pmd, dtype=float), 'pdl': np.array(rx.pdl, dtype=float)}
+        if 'C13' in self.props and not any(np.any(np.isnan(v)) for v in imp.values()):
+            total = np.zeros(len(imp['pmd']))
+            for k, table in doc_penalties(mdoc).items():
+                total = total + my_interp_penalty(imp[k], table)
+            got = np.broadcast_to(np.array(rx.total_penalty, dtype=float), total.shape)
+            same = np.all((np.isinf(total) & np.isinf(got)) | (np.abs(np.where(np.isinf(total), 0, total)
+                                                                        - np.where(np.isinf(got), 0, got)) < 1e-9)) \
+                and np.array_equal(np.isinf(total), np.isinf(got))
+            if not same:
+                raise Violation('C13', 'receiver-penalty-is-not-that-of-the-simulated-mode',
+                                f'{rq.tsp}/{rq.tsp_mode} at {rx.uid} after {self.simulations} earlier simulation(s): '
+                                f'receiver holds total penalty {np.unique(np.round(got, 4))[:4]}, '
+                                f'tables of the mode give {np.unique(np.round(total, 4))[:4]}')
+            self.nontrivial = self.nontrivial or self.simulations > 0
+        self.simulations += 1
+        return {'kind': 'simulated:ok',
+                'digest': jdigest(np.round(np.nan_to_num(np.array(rx.snr_01nm, dtype=float), posinf=1e9, neginf=-1e9),
+                                           9).tolist())}
 
     def do_edit_mode(self, trx, mode, delta_osnr):
         """the operator edits the required OSNR of one mode in the equipment library this process holds (object and
@@ -1246,6 +1318,13 @@ def make_machine(prop, tier, cfg):
             batch = self.batches[which % len(self.batches)]
             self.sess.apply('edit_penalty', {'trx': t['type_variety'], 'mode': mode, 'cd_hi': boundary})
             self.sess.apply('plan', {'data': deepcopy(batch), 'fault': None, 'tag': 'after-penalty-edit'})
+
+        @precondition(lambda self: prop == 'C13' and self.sess is not None and getattr(self.sess, 'last_sim', None))
+        @rule(index=st.integers(0, 9), modes=st.lists(st.integers(0, 7), min_size=1, max_size=3))
+        def simulate(self, index, modes):
+            # successive transmission simulations of one service with different modes, through the same elements
+            for m in modes:
+                self.sess.apply('simulate', {'index': index, 'mode_index': m})
 
         @precondition(lambda self: self.swarm['sim'] and self.world.get('flavour') != 'raman')
         @rule(which=st.integers(0, len(SIM_DOCS) - 1))
